@@ -117,3 +117,29 @@ Fixpoint view_tokens (fuel : nat) (V : view) (sc : N) (bol : bool) (w : list byt
              end
       end
   end.
+
+(** Fixed trailing context is undone by the action prologue flex emits:
+    [Some (true, n)]: yy_cp = yy_bp + n (fixed head); [Some (false, n)]:
+    yy_cp -= n (fixed trail). *)
+Definition adjust (adj : N -> option (bool * nat)) (r : N) (k : nat) : nat :=
+  match adj r with
+  | Some (true, n) => n
+  | Some (false, n) => k - n
+  | None => k
+  end.
+
+Fixpoint view_tokens_tc (fuel : nat) (V : view) (adj : N -> option (bool * nat)) (sc : N) (bol : bool)
+         (w : list byte) : list (N * nat) :=
+  match fuel with
+  | O => []
+  | S f =>
+      match w with
+      | [] => []
+      | _ => let (r, k) := scan V (v_start V (Z.of_N sc - 1) bol) w 0 (0, 0%nat) in
+             let h := adjust adj r k in
+             match h with
+             | O => [(r, O)]
+             | _ => (r, h) :: view_tokens_tc f V adj sc (bol_after bol (firstn h w)) (skipn h w)
+             end
+      end
+  end.
